@@ -582,19 +582,47 @@ def setup_repo_import():
 JOB_FAILURES = []  # (function name, exception class, last lines of the traceback) of driver jobs that crashed
 
 
+def _combine(a, b):
+    """results of two halves of a job: lists are concatenated, numbers added, tuples combined element-wise"""
+    if isinstance(a, list) and isinstance(b, list):
+        return a + b
+    if isinstance(a, tuple) and isinstance(b, tuple) and len(a) == len(b):
+        return tuple(_combine(x, y) for x, y in zip(a, b))
+    if isinstance(a, (int, float)) and isinstance(b, (int, float)) and not isinstance(a, bool):
+        return a + b
+    return a
+
+
 class _Guarded:
-    """picklable wrapper: a job that raises returns a marker instead of killing the whole map"""
+    """picklable wrapper: a job that raises does not kill the whole map.  A job of the usual shape (list of items, ...)
+    is bisected so that only the items on which the driver itself crashes are lost; everything else is still judged."""
 
     def __init__(self, fn):
         self.fn = fn
 
-    def __call__(self, x):
-        try:
-            return ("ok", self.fn(x))
-        except Exception as ex:  # noqa: B902
-            import traceback
+    def _run(self, x, crashes):
+        import traceback
 
-            return ("crash", type(ex).__name__, traceback.format_exc()[-1500:])
+        try:
+            return self.fn(x)
+        except Exception as ex:  # noqa: B902
+            tb = traceback.format_exc()[-1500:]
+            if isinstance(x, tuple) and x and isinstance(x[0], list) and len(x[0]) > 1:
+                h = len(x[0]) // 2
+                a = self._run((x[0][:h],) + tuple(x[1:]), crashes)
+                b = self._run((x[0][h:],) + tuple(x[1:]), crashes)
+                if a is None:
+                    return b
+                if b is None:
+                    return a
+                return _combine(a, b)
+            crashes.append((type(ex).__name__, tb))
+            return None
+
+    def __call__(self, x):
+        crashes = []
+        r = self._run(x, crashes)
+        return ("ok" if r is not None else "crash", r, crashes)
 
 
 def pmap(fn, items, procs=NCPU, chunksize=1, empty=list):
@@ -615,9 +643,7 @@ def pmap(fn, items, procs=NCPU, chunksize=1, empty=list):
             raw = pool.map(g, items, chunksize)
     out = []
     for r in raw:
-        if r[0] == "ok":
-            out.append(r[1])
-        else:
-            JOB_FAILURES.append((getattr(fn, "__name__", str(fn)), r[1], r[2]))
-            out.append(empty())
+        for (exc, tb) in r[2]:
+            JOB_FAILURES.append((getattr(fn, "__name__", str(fn)), exc, tb))
+        out.append(r[1] if r[0] == "ok" else empty())
     return out
